@@ -5,6 +5,7 @@ import (
 	"math/big"
 	"strings"
 
+	"verif/engine/refsem"
 	"verif/engine/sx"
 )
 
@@ -244,5 +245,87 @@ func init() {
 			r.AddSkel(skels[i], s)
 		}
 		r.Bounds = append(r.Bounds, "two independent symbolic JSON values x, y per query, templates T(1,2..3,2) and T(2,2,2); numeric kinds over their full ranges (integers beyond 2^53 included), json.Number n/10^k with k<=3; representation profiles as in C08", "reflexivity, symmetry and transitivity follow within the bound from agreement with mathematical JSON equality")
+	}
+}
+
+func init() {
+	Checks["C12"] = func(cc *CheckCtx, r *Report) {
+		p := cc.P
+		thorough := cc.Thorough()
+		// (a) hash law on the C11 cases
+		cases := equalCases(p, thorough)
+		byName := map[string]*EqualCase{}
+		var skels []*Skeleton
+		for _, c := range cases {
+			if !thorough && strings.Contains(c.Name, "canonical-len2") {
+				continue // the product of two independent traversals; kept for the thorough tier
+			}
+			c2 := *c
+			c2.Name = "F-hash/" + c.Name[len("F-equal/"):]
+			byName[c2.Name] = &c2
+			skels = append(skels, &Skeleton{Name: c2.Name, Family: "F-hash"})
+		}
+		// (c) enum / const with symbolic listed values
+		enumByName := map[string]*EnumCase{}
+		mkT := func(depth, maxLen, keys int, f func(tm *sx.Tmpl)) *sx.Tmpl {
+			tm := &sx.Tmpl{Depth: depth, MaxLen: maxLen, Keys: []string{"a", "b"}[:keys], StrT: p.NamedType("VerifStr"), KeyT: p.NamedType("VerifKey")}
+			f(tm)
+			return tm
+		}
+		addEnum := func(name string, n int, ti, te *sx.Tmpl) {
+			for t := 0; t < 6; t++ {
+				ec := &EnumCase{Name: fmt.Sprintf("F-enum/%s.i-%s", name, sx.TagNames[t]), Tm: ti, TmE: te, NEnum: n, FixTagI: t}
+				enumByName[ec.Name] = ec
+				skels = append(skels, &Skeleton{Name: ec.Name, Family: "F-enum"})
+			}
+		}
+		canon := mkT(1, 1, 1, func(tm *sx.Tmpl) {})
+		numeric := mkT(1, 1, 1, func(tm *sx.Tmpl) { tm.NumReps = allNumReps })
+		cont := mkT(1, 1, 1, func(tm *sx.Tmpl) { tm.NumReps = []int{sx.RepFloat64, sx.RepInt}; tm.ContainerReps = true })
+		wrap := mkT(1, 1, 1, func(tm *sx.Tmpl) { tm.Wrappers = true })
+		addEnum("enum2.numeric", 2, numeric, canon)
+		addEnum("const.numeric", 0, numeric, canon)
+		addEnum("const.containers", 0, cont, canon)
+		addEnum("const.wrappers", 0, wrap, canon)
+		if thorough {
+			addEnum("enum2.containers", 2, cont, canon)
+			addEnum("enum3.canonical", 3, canon, canon)
+		}
+		// (b) uniqueItems end to end: symbolic arrays with symbolic hash function and seed
+		uq := func(name string, maxLen int, f func(tm *sx.Tmpl)) {
+			sk := mkSkel("F-unique", name, J{"uniqueItems": true}, refsem.Draft2020, TmplSpec{1, maxLen, 1})
+			tm := *sk.Tm
+			tm.StrT, tm.KeyT = p.NamedType("VerifStr"), p.NamedType("VerifKey")
+			f(&tm)
+			sk.Tm = &tm
+			skels = append(skels, sk)
+		}
+		uq("canonical-len3", 3, func(tm *sx.Tmpl) {})
+		uq("numeric-len2", 2, func(tm *sx.Tmpl) { tm.NumReps = allNumReps })
+		uq("containers-len2", 2, func(tm *sx.Tmpl) { tm.NumReps = []int{sx.RepFloat64, sx.RepInt}; tm.ContainerReps = true })
+		uq("wrappers-len2", 2, func(tm *sx.Tmpl) { tm.Wrappers = true })
+		if thorough {
+			uq("canonical-len4", 4, func(tm *sx.Tmpl) {})
+			uq("numeric-len3", 3, func(tm *sx.Tmpl) { tm.NumReps = []int{sx.RepFloat64, sx.RepInt64, sx.RepUint64, sx.RepJSONNumber} })
+		}
+		skels, results := RunSkeletons(cc.P, skels, cc.Workers, cc.Timeout, func(w *Worker, sk *Skeleton) *SkelResult {
+			if c, ok := byName[sk.Name]; ok {
+				return w.RunEqualCase(c, "C12", true)
+			}
+			if c, ok := enumByName[sk.Name]; ok {
+				return w.RunEnumCase(c, "C12")
+			}
+			return w.RunValidateSkeleton(sk, VOptions{Property: "C12", ValidatePaths: true})
+		})
+		for i, s := range results {
+			for j := range s.Findings {
+				s.Findings[j].Class = ClassifyFinding(s.Findings[j])
+			}
+			r.AddSkel(skels[i], s)
+		}
+		r.Bounds = append(r.Bounds,
+			"hash law: hashValue on two symbolic values with one symbolic seed; maphash modelled as a chain of uninterpreted mixing functions (one application per token written), so the query ranges over all hash functions and seeds: O-eq(x,y) => equal hashes",
+			"enum/const: listed values are symbolic JSON values (templates T(1,1,1)), instance symbolic with symbolic representation",
+			"uniqueItems: arrays of length <= 3 (quick) / 4 (thorough), elements depth 1 in canonical and mixed representations; verdict <=> no two elements are JSON-equal, for every hash function, seed and collision pattern")
 	}
 }
